@@ -128,7 +128,26 @@ EXTRA4 = {
  "C17": " Summary columns stay signed and full-width; default rank / iteration are the numerically smallest.",
  "C19": " The pickled payload is not edited between creation and dump, nor between load and installation; recomputation on a restored graph rebuilds the edge set.",
 }
+EXTRA7 = {
+ "C01": " The uniform shift is decided on every path of _align_all_ranks.",
+ "C02": " Sets of symbol ids defined by a predicate over the symbol strings are decided on representatives incl. near-miss names.",
+ "C03": " The event filter of the builder behind the critical path is optional, None by default and forwarded unchanged; every host row of a thread (stream test alone) enters the stack of the other builder.",
+ "C05": " A result table the evaluator cannot read is reported as not understood, never skipped.",
+ "C08": " Threads are split by (pid, tid) in the builder behind the critical path (clause shared with C03).",
+ "C09": " Who-may-write: the members that report the path are written by the constructor, critical_path() and restore only (aliases and in-place operators included).",
+ "C10": " bound_by reads the edge type, the stream and the kernel name only.",
+ "C11": " No analyzer keeps a table in a module- or class-level container (ids of one trace never meet another trace); the alignment shift does not depend on the order of the ranks.",
+ "C13": " The leaf test is membership of the id, not a test on the activity's values; main / bwd thread labels as a decision table; every host row enters the stack.",
+ "C14": " The bandwidth sweep groups by the copy type (not the raw id) on every path; the stored shift has one writer.",
+ "C16": " Thread labels and completeness of the host rows (shared with C13 / C03).",
+ "C17": " LabeledTrace parses the trace files itself on every construction path and never trims.",
+ "C18": " Constructors of the value-list filters keep exactly the given values.",
+ "C19": " setattr/getattr copies with literal names are read like attribute copies.",
+ "C20": " Readers return the decoded JSON object unmodified.",
+}
 for _k, _v in EXTRA4.items():
+    CLAIMS[_k] = (CLAIMS[_k][0], CLAIMS[_k][1] + _v, CLAIMS[_k][2])
+for _k, _v in EXTRA7.items():
     CLAIMS[_k] = (CLAIMS[_k][0], CLAIMS[_k][1] + _v, CLAIMS[_k][2])
 
 REASON_WIP = "checker under construction in this session (see DESIGN.md section 3); not claimed until its check is committed"
